@@ -109,7 +109,7 @@ PROPS = {
     "C01": P(["asan", "asanz"], 30, 900,
              "plans = seeded histories (4..40 ops, pool of 4 objects, str or ustr, direct functions or class-table macros) starting from a random constructor "
              "(empty, ptr, buff, num, FILE* with seeded chunking, descriptor with short reads/EINTR/EAGAIN/EIO), texts from empty to 16 KB around the 4096-byte chunk; "
-             "every object is compared with an ideal character sequence after every step; Since rounds 10-12: FILE* sources may be stdio streams over a simulated descriptor (fileno works, stdio reads ahead); positions and counts reach INT_MAX, 2^32, LONG_MAX and LONG_MAX-len and their negatives. Since round 16: a stream read may fail once (EINTR) and work again, with further constructions from the same stream judged exactly; formatted results of power-of-two lengths 16..8192 and one or two off. Since round 17: vsnprintf() may fail at the first or second call of a sprintf (-1/ENOMEM after partial output). distinct = distinct trace hash (includes allocator digest); non-trivial = >= 3 ops",
+             "every object is compared with an ideal character sequence after every step; Since rounds 10-12: FILE* sources may be stdio streams over a simulated descriptor (fileno works, stdio reads ahead); positions and counts reach INT_MAX, 2^32, LONG_MAX and LONG_MAX-len and their negatives. Since round 16: a stream read may fail once (EINTR) and work again, with further constructions from the same stream judged exactly; formatted results of power-of-two lengths 16..8192 and one or two off. Since round 17: vsnprintf() may fail at the first or second call of a sprintf (-1/ENOMEM after partial output). Since round 18: a stream read may answer EAGAIN after part of a line (single constructions; the object may hold any beginning of the line up to all of it). distinct = distinct trace hash (includes allocator digest); non-trivial = >= 3 ops",
              probes=["sprintf_refused_after_formatter_failure", "fp_read_failed_once", "fp_constructed_after_a_read_that_failed_once", "fp_over_descriptor", "self_as_argument", "argument_related_to_object", "counted_buffer_without_terminator", "fp_read_error",
                      "append_on_empty", "fp_line_crosses_4096", "fd_multi_chunk", "refused_op", "done", "query_not_found", "trim_all_whitespace",
                      "mutator_on_empty_state", "dup_of_empty_str"]),
